@@ -1613,6 +1613,12 @@ func (g Gateway) SubscribeToEvents(in *hydrapb.SubscribeToEventsRequest, eventSe
 	// Get the server context
 	hydraInterface := g.ZeusInterface.GetHydra()
 
+	// The callback runs synchronously on the goroutine of whichever writer
+	// changed the swamp, so concurrent writers invoke it concurrently.
+	// gRPC forbids calling SendMsg on one stream from several goroutines
+	// at once, so sends on this subscription's stream are serialised.
+	var sendMu sync.Mutex
+
 	eventCallbackFunction := func(event *swamp.Event) {
 
 		if event == nil {
@@ -1664,14 +1670,17 @@ func (g Gateway) SubscribeToEvents(in *hydrapb.SubscribeToEventsRequest, eventSe
 		}
 
 		// send the message to the client
-		if sendErr := eventServer.SendMsg(&hydrapb.SubscribeToEventsResponse{
+		sendMu.Lock()
+		sendErr := eventServer.SendMsg(&hydrapb.SubscribeToEventsResponse{
 			SwampName:       eventSwampName,
 			Treasure:        convertedTreasure,
 			Status:          convertedStatusType,
 			OldTreasure:     convertedOldTreasure,
 			DeletedTreasure: convertedDeletedTreasure,
 			EventTime:       convertedEventTime,
-		}); sendErr != nil {
+		})
+		sendMu.Unlock()
+		if sendErr != nil {
 			slog.Error("failed to send the event to the client",
 				"error", sendErr.Error(),
 				"swamp_name", eventSwampName)
@@ -1742,6 +1751,10 @@ func (g Gateway) SubscribeToInfo(in *hydrapb.SubscribeToInfoRequest, infoServer 
 	// make the channel for the subscriber
 	subscriberUUID := uuid.New()
 
+	// The callback runs on the goroutine of whichever writer changed the
+	// swamp; gRPC forbids concurrent Send on one stream, so serialise.
+	var sendMu sync.Mutex
+
 	infoSubscriptionCallbackFunction := func(info *swamp.Info) {
 		// send the event to the client
 		func() {
@@ -1752,10 +1765,13 @@ func (g Gateway) SubscribeToInfo(in *hydrapb.SubscribeToInfoRequest, infoServer 
 			infoSwampName := info.SwampName.Get()
 
 			// send the info to the client
-			if sendErr := infoServer.Send(&hydrapb.SubscribeToInfoResponse{
+			sendMu.Lock()
+			sendErr := infoServer.Send(&hydrapb.SubscribeToInfoResponse{
 				SwampName:   infoSwampName,
 				AllElements: info.AllElements,
-			}); sendErr != nil {
+			})
+			sendMu.Unlock()
+			if sendErr != nil {
 				slog.Error("failed to send the info to the client",
 					"error", sendErr.Error(),
 					"swamp_name", infoSwampName)
